@@ -107,6 +107,7 @@ fn flt_atoms(tier: run::Tier) -> Vec<FE> {
         FE::Fn(1),
         FE::Not(bx(FE::Level(2))),
         FE::Env(11),
+        FE::Targets(5),
     ];
     if tier == run::Tier::Thorough {
         v.extend([FE::NoneF, FE::Dyn(3), FE::Targets(2), FE::Or(bx(FE::Level(1)), bx(FE::Dyn(0)))]);
